@@ -397,11 +397,13 @@ class Agent(dbus.service.Object):
         ctr.fix_block_num()
         ctr.bundle.fill_fields()
 
+        interrupted = False
         for step in self._tx_chain:
             self._logger.debug('Performing TX step %5.1f: %s', step.order, step.name)
             try:
                 if step.action(ctr):
                     self._logger.debug('Step %5.1f interrupted the chain', step.order)
+                    interrupted = True
                     break
             except Exception as err:
                 self._logger.error('Step %5.1f failed with exception: %s', step.order, err)
@@ -416,6 +418,9 @@ class Agent(dbus.service.Object):
                 ctr.sender = cl_obj.send_bundle_func(ctr.route.raw_config)
 
         if ctr.sender is None:
+            if interrupted and ctr.route is None:
+                # a chain step took over the transmission (e.g. as fragments)
+                return
             raise RuntimeError('TX chain completed with no sender for %s', ctr.log_name())
 
         ctr.fix_block_num()
